@@ -857,6 +857,15 @@ func (e *SpecEnv) evalCall(x *ECall) SV {
 					e.fail("ghostvar(NAME)")
 				}
 				return SV{t: fc.comp(e.cur, "G|v|"+id.Name, "Int"), typ: mathInt}
+			case "inblock":
+				// inblock(p, s): pointer p is the address of an element of the backing array of slice s (any index) (ext_crypto.go)
+				return e.inblockBuiltin(x)
+			case "seqpart":
+				// seqpart(a, off, n): the byte string held by the window [off, off+n) of a byte array VALUE or slice (ext_crypto.go)
+				return e.seqpartBuiltin(x)
+			case "visited":
+				// visited(k): the ghost visited set of the map range loop whose invariant is being evaluated (ext_crypto.go)
+				return e.visitedBuiltin(x)
 			case "ptrof":
 				// ptrof(x): the pointer held by an interface value
 				v := e.eval(x.Args[0])
@@ -1079,6 +1088,12 @@ func (e *SpecEnv) applySpecFn(sf *SpecFn, argExprs []Expr) SV {
 			ss, tt := e.uninterpArg(a, n.resolveType(sf.Params[i].Type)) // slices of leaf elements: (block content, offset, length), see ext_c34.go
 			sorts = append(sorts, ss...)
 			ts = append(ts, tt...)
+		}
+		if len(sf.Reads) > 0 {
+			// `reads` clause: the listed heap components (of the state the call is evaluated in) are extra arguments
+			rs, rt := e.readsArgs(sf, &n)
+			e.readsFrame("sf_"+mangle(sf.Pkg+"_"+sf.Name), e.fc.tc.sortOf(ret), rs, rt, func(ent *SpecEnv) []string { _, t0 := ent.readsArgs(sf, &n); return t0 }, sorts, args)
+			sorts, ts = append(rs, sorts...), append(rt, ts...)
 		}
 		name := "sf_" + mangle(sf.Pkg+"_"+sf.Name)
 		e.fc.eng.declareUF(e.fc, name, sorts, e.fc.tc.sortOf(ret))
@@ -1425,9 +1440,22 @@ func (e *SpecEnv) applyRec(sf *SpecFn, n *SpecEnv, args []SV) SV {
 		}
 	}
 	var ts []string
+	var hsorts, asorts []string
 	for _, k := range comps {
 		ts = append(ts, fc.comp(e.cur, k, fc.comps[k]))
+		hsorts = append(hsorts, fc.comps[k])
 	}
+	for _, a := range args {
+		asorts = append(asorts, fc.tc.sortOfSV(a))
+	}
+	// frame rule w.r.t. the entry state (opt-in `uses readsframe`, ext_crypto.go)
+	e.readsFrame(name, fc.tc.sortOf(ret), hsorts, append([]string{}, ts...), func(ent *SpecEnv) []string {
+		var t0 []string
+		for _, k := range comps {
+			t0 = append(t0, fc.comp(ent.cur, k, fc.comps[k]))
+		}
+		return t0
+	}, asorts, args)
 	for _, a := range args {
 		ts = append(ts, a.t)
 	}
